@@ -1,6 +1,6 @@
 (* C04/Structure.v — structural facts about the programs of C04/Model.v:
-   which of them can drop a write error and go on to return a value (only sasl_server, at the
-   <success/> flush), what outcomes the features return, and which programs touch the state
+   none of them drops a write error and goes on to return a value (until the repair of sasl.go
+   sasl_server did, at the <success/> flush), what outcomes the features return, and which programs touch the state
    bits (only run_feature and session). *)
 From XV Require Import lib.Bytes gen.NegTables C04.Model C04.Generic.
 
@@ -91,9 +91,9 @@ Section WruOk.
   Proof. induction n as [|n IH]; intro sel; cbn [sasl_server_loop]; struct. Qed.
   Hint Resolve sasl_server_loop_wok : c04.
 
-  (* the one place where a dropped write error is followed by a result *)
-  Lemma sasl_server_wok n : P WSuccess -> wru_ok P (sasl_server n).
-  Proof. intro HP. unfold sasl_server; struct. Qed.
+  (* since the repair of sasl.go the <success/> flush is checked like every other write *)
+  Lemma sasl_server_wok n : wru_ok P (sasl_server n).
+  Proof. unfold sasl_server; struct. Qed.
 
   Lemma bind_client_wok n : wru_ok P (bind_client n).
   Proof. unfold bind_client; struct. Qed.
@@ -107,18 +107,16 @@ Section WruOk.
   Lemma custom_server_wok n : wru_ok P (custom_server n).
   Proof. unfold custom_server; struct. Qed.
 
-  Lemma negotiate_feature_wok n recv f :
-    (f_kind f = FSASL -> recv = true -> P WSuccess) -> wru_ok P (negotiate_feature n recv f).
+  Lemma negotiate_feature_wok n recv f : wru_ok P (negotiate_feature n recv f).
   Proof.
-    intro H. unfold negotiate_feature. destruct (f_kind f) eqn:E; destruct recv;
+    unfold negotiate_feature. destruct (f_kind f) eqn:E; destruct recv;
       auto using starttls_client_wok, starttls_server_wok, sasl_client_wok, sasl_server_wok,
                  bind_client_wok, bind_server_wok, custom_client_wok, custom_server_wok.
   Qed.
 
-  Lemma run_feature_wok n recv f ft pre :
-    (f_kind ft = FSASL -> recv = true -> P WSuccess) -> wru_ok P (run_feature n recv f ft pre).
+  Lemma run_feature_wok n recv f ft pre : wru_ok P (run_feature n recv f ft pre).
   Proof.
-    intro H. unfold run_feature. pose proof (negotiate_feature_wok n recv ft H). struct.
+    unfold run_feature. pose proof (negotiate_feature_wok n recv ft). struct.
   Qed.
 
   Lemma list_features_wok fs : forall i bits acc, wru_ok P (list_features fs i bits acc).
@@ -144,12 +142,11 @@ Section WruOk.
   Lemma comp_call_wok n : wru_ok P (comp_call n).
   Proof. unfold comp_call; struct. Qed.
 
-  (* the initiating side never runs sasl_server *)
-  Lemma init_loop_wok n cfg l : forall force negotiated, wru_ok P (init_loop n cfg l force negotiated).
+  Lemma init_loop_wok n cfg l : forall k force negotiated, wru_ok P (init_loop k n cfg l force negotiated).
   Proof.
-    induction n as [|n IH]; intros force negotiated; cbn [init_loop]; [constructor|].
+    induction k as [|k IH]; intros force negotiated; cbn [init_loop]; [constructor|].
     assert (HR : forall f ft pre, wru_ok P (run_feature n false f ft pre))
-      by (intros; apply run_feature_wok; discriminate).
+      by (intros; apply run_feature_wok).
     struct.
   Qed.
   Hint Resolve init_loop_wok : c04.
@@ -157,28 +154,29 @@ Section WruOk.
   Lemma features_initiator_wok n cfg first : wru_ok P (features_initiator n cfg first).
   Proof. unfold features_initiator; struct. Qed.
 
-  Lemma recv_loop_wok n cfg l : P WSuccess -> forall negotiated, wru_ok P (recv_loop n cfg l negotiated).
+  Lemma recv_loop_wok n cfg l : forall negotiated, wru_ok P (recv_loop n cfg l negotiated).
   Proof.
-    intro HP. induction n as [|n IH]; intro negotiated; cbn [recv_loop]; [constructor|].
+    induction n as [|n IH]; intro negotiated; cbn [recv_loop]; [constructor|].
     assert (HR : forall f ft pre, wru_ok P (run_feature n true f ft pre))
-      by (intros; apply run_feature_wok; intros; exact HP).
+      by (intros; apply run_feature_wok).
     struct.
   Qed.
 
-  Lemma features_receiver_wok n cfg : P WSuccess -> wru_ok P (features_receiver n cfg).
-  Proof. intro HP. unfold features_receiver. pose proof (recv_loop_wok n cfg) as HL. struct. Qed.
+  Lemma features_receiver_wok n cfg : wru_ok P (features_receiver n cfg).
+  Proof. unfold features_receiver. pose proof (recv_loop_wok n cfg) as HL. struct. Qed.
 
-  Lemma std_call_wok n cfg ns : P WSuccess -> wru_ok P (std_call n cfg ns).
+  Lemma std_call_wok n cfg ns : wru_ok P (std_call n cfg ns).
   Proof.
-    intro HP. unfold std_call.
-    pose proof (features_receiver_wok n cfg HP). pose proof (features_initiator_wok n cfg).
+    unfold std_call.
+    pose proof (features_receiver_wok n cfg). pose proof (features_initiator_wok n cfg).
     struct.
   Qed.
 
-  Lemma session_wok n cfg : P WSuccess -> forall m ns, wru_ok P (session n m cfg ns).
+  (* every program of the model is strict: no write error is dropped on a path that returns *)
+  Lemma session_wok n cfg : forall m ns, wru_ok P (session n m cfg ns).
   Proof.
-    intro HP. induction m as [|m IH]; intro ns; cbn [session];
-      pose proof (std_call_wok n cfg ns HP); pose proof (comp_call_wok n); struct.
+    induction m as [|m IH]; intro ns; cbn [session];
+      pose proof (std_call_wok n cfg ns); pose proof (comp_call_wok n); struct.
   Qed.
 End WruOk.
 
